@@ -298,13 +298,9 @@ class Interproc:
                 self.analyse(cid)
         an = Analyzer(self.f, interproc=self)
         an.closure_seeds = self.an.closure_seeds
-        saved = absdom.KILL_LOG
-        absdom.KILL_LOG = set()
-        try:
-            res = an.analyze(b)
-        finally:
-            written = absdom.KILL_LOG
-            absdom.KILL_LOG = saved
+        res = an.analyze(b)
+        absdom.MAX_PARAM = 0
+        written = None
         self.in_progress.discard(bid)
         res.written = written
         self.results[bid] = res
@@ -346,6 +342,7 @@ class Interproc:
             if o.ok or o.lift is None:
                 continue
             kind = o.lift[0]
+            written = o.dirty
             if kind == "lifted":
                 lf = o.lift[1]
                 if self._parts_ok(b, lf.kind, lf.parts, written):
@@ -649,8 +646,12 @@ class Interproc:
             for lf in s.exports:
                 ok, lift, cond = self.check_lifted(an, ctx, lf)
                 nl = None
-                if not ok and lift is not None and (lift[0] != "conj" or an.conj_lift(lift[1]) is not None):
-                    nl = Lifted(lf.cls, lift[0], lift[1:], lf.origin, lf.desc, lf.what, lf.file, lf.line, lf.chain + [an.b.id])
+                if not ok and lift is not None:
+                    if lift[0] == "conj":
+                        an.cur_dirty = ctx.st.dirty
+                        lift = an.conj_lift(lift[1], ctx.st)
+                    if lift is not None:
+                        nl = Lifted(lf.cls, lift[0], lift[1:], lf.origin, lf.desc, lf.what, lf.file, lf.line, lf.chain + [an.b.id])
                 if an.collect:
                     an.res.obls.append(_lifted_obl(ctx, lf, ok, nl, an))
                 if len(cands) == 1:
@@ -757,6 +758,10 @@ class Interproc:
         env_ty = T[cb.locals[1]["t"]] if cb.argc >= 1 else None
         by_ref_env = env_ty is not None and env_ty["k"] == "ref"
         elem = self._elem_bounds(an, ctx, ai)
+        saved_state = None
+        rel_elem = self._elem_relational(an, ctx, ai)
+        if rel_elem is not None:
+            elem = rel_elem
 
         def inst_term(t):
             kind, root, steps = t
@@ -817,7 +822,8 @@ class Interproc:
                     cons.append((a2, b2, c))
                 if cons is not None:
                     ok, un = an.conj_check(ctx.st, cons)
-                    lift = an.conj_lift(un) if not ok else None
+                    an.cur_dirty = ctx.st.dirty
+                    lift = an.conj_lift(un, ctx.st) if not ok else None
             elif lf.kind == "nz":
                 dv = inst_val(lf.parts[0])
                 if dv is not None:
@@ -831,6 +837,48 @@ class Interproc:
                 an.res.obls.append(_lifted_obl(ctx, lf, ok, nl, an))
         if an.collect:
             self.closure_checked.add(cdef)
+
+    def _elem_relational(self, an, ctx, ai):
+        """fresh term E with  start <= E < end  added to the call-site state (E is rooted at the call's destination
+        local, so it dies with it)"""
+        if ai == 0 or not ctx.args:
+            return None
+        v0, t0 = ctx.args[0]
+        if t0 is None:
+            return None
+        ty = self.f.types[t0]
+        if ty["k"] != "adt" or ty["adt"] not in ("std::ops::Range", "std::ops::RangeInclusive"):
+            return None
+        op = ctx.t["args"][0]
+        pj = op.get("copy") or op.get("move")
+        can = an.canon(ctx.st, pj) if pj is not None else None
+        d = ctx.dest_place()
+        if can is None or d is None:
+            return None
+        st = ctx.st
+
+        def fld(nm):
+            pl = (can[0], can[1] + (nm,))
+            w = st.sym.get(pl)
+            if w is not None and w[0] == "n":
+                return w
+            t = ("v", pl[0], pl[1])
+            if t in st.iv or any(t in k for k in st.rel):
+                return ("n", t, 0)
+            return None
+        s0, e0 = fld("start"), fld("end")
+        E = ("v", d[0], d[1] + ("#elem",))
+        for k in [k for k in st.rel if E in k]:
+            del st.rel[k]
+        st.iv.pop(E, None)
+        ev = ("n", E, 0)
+        if s0 is not None:
+            st.add_le(s0, ev, 0)
+        if e0 is not None:
+            st.add_le(ev, e0, -1 if ty["adt"] == "std::ops::Range" else 0)
+        if s0 is None and e0 is None:
+            return None
+        return ev
 
     def _elem_bounds(self, an, ctx, ai):
         """value bounds of the closure's element parameter when the receiver (argument 0) is an integer range"""
@@ -886,5 +934,6 @@ def _lifted_obl(ctx, lf, ok, newlift, an):
     from .absint import Obl
     o = Obl(ctx.bi, lf.cls, ok, "lifted" if ok else None, lf.desc, lf.line, lf.file, lf.what,
             ("lifted", newlift) if (not ok and newlift is not None) else None)
+    o.dirty = ctx.st.dirty
     o.trust = ("origin", lf.origin, list(lf.chain) + [an.b.id])
     return o
